@@ -6,6 +6,8 @@ import itertools
 
 REAL, INT, UINT = "real", "int", "uint"
 INTS = (INT, UINT)
+STRICT_INTS = set()   # integer symbols that are never relaxed to reals in solver queries
+INT_SYMS = {}   # names ever created with an integer kind (real(.) views keep the name)
 
 
 class T:
@@ -26,7 +28,11 @@ class T:
         return T("num", (f,), kind)
 
     @staticmethod
-    def sym(name, kind=REAL):
+    def sym(name, kind=REAL, strict=False):
+        if kind in INTS:
+            INT_SYMS[name] = kind
+            if strict:
+                STRICT_INTS.add(name)
         return T("sym", (name,), kind)
 
     def is_num(self):
@@ -300,7 +306,9 @@ def symbols(t, acc=None):
         acc = {}
     if isinstance(t, T):
         if t.op == "sym":
-            if t.kind in INTS or t.args[0] not in acc:
+            if t.args[0] in INT_SYMS:
+                acc[t.args[0]] = INT_SYMS[t.args[0]]
+            elif t.kind in INTS or t.args[0] not in acc:
                 acc[t.args[0]] = t.kind
         else:
             for a in t.args:
